@@ -198,6 +198,55 @@ def sample_points(r, maxn, first_cache, budget):
     return r.sample(hot, k_hot) + r.sample(cold, min(len(cold), budget - k_hot))
 
 
+def shared_blob_crash(out, grog, harness, tier):
+    """Two independent targets of one build produce a byte-identical large blob and complete concurrently (num_workers=2); grog is
+    killed (SIGKILL, no tracer) the moment the first target result becomes visible in the cache directory; the offline audit then
+    demands that every blob that result references is there (a result must become visible only after all outputs it references were
+    stored -- also when ANOTHER target of the same build is still uploading the very same digest)."""
+    import glob
+    trials = 6 if tier == "quick" else 40
+    base = os.path.join(vlib.scratch(), "c07shared")
+    stats = {"trials": 0, "killed_with_result_visible": 0}
+    for k in range(trials):
+        d = os.path.join(base, "t%d" % k)
+        ws, root = os.path.join(d, "ws"), os.path.join(d, "root")
+        os.makedirs(os.path.join(ws, "p"), exist_ok=True); os.makedirs(root, exist_ok=True)
+        size = 48000000 + 1000 * k
+        targets = [{"name": "t%d" % i, "command": "head -c %d /dev/zero > big%d.out" % (size, i), "outputs": ["big%d.out" % i]} for i in (0, 1)]
+        json.dump({"targets": targets}, open(os.path.join(ws, "p", "BUILD.json"), "w"))
+        open(os.path.join(ws, "grog.toml"), "w").write("num_workers = 2\n")
+        cdir = store_ws.cache_dir(root, ws)
+        p = subprocess.Popen([grog, "build"], cwd=ws, env={"PATH": os.environ["PATH"], "GROG_ROOT": root, "HOME": d, "NO_COLOR": "1"},
+                             stdin=subprocess.DEVNULL, stdout=subprocess.DEVNULL, stderr=subprocess.DEVNULL, start_new_session=True)
+        t0 = time.time(); seen = False
+        tdir = os.path.join(cdir, "target")
+        while time.time() - t0 < 20 and p.poll() is None:
+            try:
+                if any(not f.startswith("tmp-") for f in os.listdir(tdir)):
+                    seen = True
+                    break
+            except FileNotFoundError:
+                pass
+        try:
+            os.killpg(p.pid, signal.SIGKILL)
+        except ProcessLookupError:
+            pass
+        p.wait()
+        stats["trials"] += 1
+        if seen:
+            stats["killed_with_result_visible"] += 1
+            au = store_ws.audit(harness, cdir)
+            for pr in au["problems"]:
+                out.violation("two targets of one build share a blob; grog killed as soon as the first result was visible: %s" % pr[:260],
+                              {"workspace": {"targets": targets, "num_workers": 2}, "kill": "SIGKILL when the first file appears under cache/target",
+                               "problem": pr, "audit": {"cas": au["cas"], "targets": au["targets"], "tmp": au["tmp"]}})
+                break
+        shutil.rmtree(d, ignore_errors=True)
+        if out.violations:
+            break
+    return stats
+
+
 def run(out, tier):
     findings = {f["class"]: f for f in vlib.known_findings("C07")}
     harness = None
@@ -221,6 +270,7 @@ def run(out, tier):
         out.violation("strace syscall tampering is unavailable: crash points cannot be enumerated", {"correspondence": "strace -e inject"}, no_input=True)
         return
     grog = vlib.build_grog()
+    inproc["shared_blob_crash"] = shared_blob_crash(out, grog, harness, tier)
     r = vlib.Rng(vlib.seed() * 104729 + 7)
     base = os.path.join(vlib.scratch(), "c07")
     os.makedirs(base, exist_ok=True)
